@@ -618,6 +618,15 @@ pub fn execute(case: &TokCase, stats: &mut Stats, work: &Path) -> Option<Violati
                         *idx % lists[li].list.len()
                     }
                 };
+                // on-demand splitting reads the split field of that mode: only judged when the field is
+                // part of the *request* (earlier mode changes legitimately leave extra fields loaded)
+                {
+                    let requested = lists[li].shown.as_ref().map(|x| x.1).unwrap_or(InfoSubset::empty());
+                    if !requested.contains(mode_subset(m)) {
+                        stats.inc("skipped.split_field_not_requested");
+                        continue;
+                    }
+                }
                 stats.inc("op.split_into");
                 history_ops += 1;
                 let src = lists[li].source.clone().unwrap();
